@@ -114,23 +114,39 @@ def strip_lean_comments(src):
     return "".join(out)
 
 
-def source_audit():
-    """Forbidden constructs outside comments, anywhere in the Lean sources."""
+def import_closure(modules):
+    """Lean files of this project reachable from the given modules through `import` lines."""
+    seen, todo = set(), list(modules)
+    while todo:
+        m = todo.pop()
+        if m in seen:
+            continue
+        path = os.path.join(LEAN, *m.split(".")) + ".lean"
+        if not os.path.exists(path):
+            continue
+        seen.add(m)
+        with open(path, encoding="utf-8") as f:
+            for line in f:
+                mm = re.match(r"\s*import\s+([A-Za-z0-9_.]+)", line)
+                if mm and mm.group(1).split(".")[0] in ("CanopenModel", "CanopenProofs", "Driver"):
+                    todo.append(mm.group(1))
+    return sorted(seen)
+
+
+def source_audit(modules):
+    """Forbidden constructs outside comments, in every Lean source the property's proof modules and
+    driver depend on (the import closure inside this project)."""
     hits = []
-    for root in ("CanopenModel", "CanopenProofs", "Driver"):
-        for dp, _, fns in os.walk(os.path.join(LEAN, root)):
-            for fn in fns:
-                if not fn.endswith(".lean"):
-                    continue
-                path = os.path.join(dp, fn)
-                with open(path, encoding="utf-8") as f:
-                    code = strip_lean_comments(f.read())
-                # string literals are data (generated description tables), not proof text
-                code = re.sub(r'"(?:\\.|[^"\\])*"', '""', code)
-                for ln, line in enumerate(code.split("\n"), 1):
-                    for pat in FORBIDDEN:
-                        if re.search(pat, line):
-                            hits.append(f"{os.path.relpath(path, LEAN)}:{ln}: {pat}")
+    for m in import_closure(modules):
+        path = os.path.join(LEAN, *m.split(".")) + ".lean"
+        with open(path, encoding="utf-8") as f:
+            code = strip_lean_comments(f.read())
+        # string literals are data (generated description tables), not proof text
+        code = re.sub(r'"(?:\\.|[^"\\])*"', '""', code)
+        for ln, line in enumerate(code.split("\n"), 1):
+            for pat in FORBIDDEN:
+                if re.search(pat, line):
+                    hits.append(f"{os.path.relpath(path, LEAN)}:{ln}: {pat}")
     return hits
 
 
@@ -325,7 +341,7 @@ def check(pid, tier, seed, replay=None):
     proofs_ok = ok
     if not ok:
         broken.append(("proof-build", ",".join(prop.PROOF_MODULES), tail(text)))
-    src_hits = source_audit()
+    src_hits = source_audit(list(prop.PROOF_MODULES) + [f"Driver.Main{pid}"])
     if src_hits:
         broken.append(("source-audit", "forbidden construct", "; ".join(src_hits[:10])))
     axioms = {}
